@@ -15,6 +15,7 @@ RW(R, p) == CASE p = "ones" -> [r \in 1..R |-> 1] [] p = "seq" -> [r \in 1..R |-
               [] p = "zeroend" -> [r \in 1..R |-> IF r = R THEN 0 ELSE 2] [] p = "allzero" -> [r \in 1..R |-> 0]
               [] p = "mixed" -> [r \in 1..R |-> IF r = 1 THEN 3 ELSE -1]              \* mixed signs, positive sum (R <= 3)
 OW(p) == CASE p = "one" -> <<1>> [] p = "big" -> <<4>> [] p = "pair" -> <<1, 3>> [] p = "zero" -> <<0, 0>> [] p = "mixed" -> <<3, -1>>
+           [] p = "near" -> <<65536, 65537>>      \* given as (1/2, 1/2 + 2^-17): sums to one only nearly
 LB(V, b) == CASE b = "default" -> [v \in 1..V |-> -INF] [] b = "scalar" -> [v \in 1..V |-> -1]
               [] b = "vector" -> [v \in 1..V |-> v - 2] [] b = "mixinf" -> [v \in 1..V |-> IF v = 1 THEN -INF ELSE 0]
               [] b = "crossed" -> [v \in 1..V |-> 1] [] b = "badlen" -> [v \in 1..(V + 1) |-> -1]
